@@ -23,21 +23,23 @@ def sort_by_time(x):
         return x
 
     if "channel" in x.dtype.names:
-        min_channel = x["channel"].min()
-        channel = x["channel"].copy()
+        # The key is computed in int64, whatever the type of the channel field
+        channel = x["channel"].astype(np.int64)
+        min_channel = channel.min()
         if min_channel < 0:
             channel -= min_channel
     else:
         # An integer key: a float would lose nanoseconds once the time range exceeds 2^52
         channel = np.ones(len(x), dtype=np.int64)
 
-    max_time_difference = (np.iinfo(np.int64).max - 10) / (channel.max() + 1)
+    max_channel_plus_one = int(channel.max()) + 1
+    # Integer arithmetic: (time range + 1) * max_channel_plus_one has to fit int64.
     # Subtract 10 to have some extra margin, just in case.
-    # Use absolute to account for peaks which are channel -1.
-    _time_range_too_large = (x["time"].max() - x["time"].min()) > max_time_difference
+    max_time_difference = (int(np.iinfo(np.int64).max) - 10) // max_channel_plus_one - 1
+    _time_range_too_large = (int(x["time"].max()) - int(x["time"].min())) > max_time_difference
     if not _time_range_too_large:
         # Faster sorting:
-        x = _sort_by_time_and_channel(x, channel, channel.max() + 1)
+        x = _sort_by_time_and_channel(x, channel, max_channel_plus_one)
     elif "channel" in x.dtype.names:
         x = stable_sort(x, order=("time", "channel"))
     else:
